@@ -45,8 +45,9 @@ theorem step_frame (max len id : Nat) (hl : len + 1 < 4294967296) (r : Bytes) :
 
 /-- Well-formed message relative to the reader's limit `max`: fields fit their wire width, the
 body fits `max`, request length and block length are within 16 KiB, an extension message carries
-the extended id its payload type is dispatched on and its payload survives the bencode layer
-(`Bencode.RoundTrips`, discharged for well-formed payloads by `bencode_roundtrip`). -/
+the extended id its payload type is dispatched on and a well-formed payload record
+(`Bencode.WFPayload`: distinct handshake map keys with `uint8` values, non-negative sizes, integers
+within `int` / `uint32`). -/
 def WFMsg (max : Nat) : Msg → Prop
   | .choke | .unchoke | .interested | .notInterested | .haveAll | .haveNone => True
   | .have i | .allowedFast i => i < 4294967296 ∧ 4 ≤ max
@@ -57,7 +58,7 @@ def WFMsg (max : Nat) : Msg → Prop
   | .port p => p < 65536 ∧ 2 ≤ max
   | .ext eid p => eid = Bencode.kindId p ∧ 1 + (Bencode.encPayload p).length ≤ max
       ∧ (Bencode.encPayload p).length + 2 < 4294967296
-      ∧ (Bencode.parseExt (Bencode.kindId p) (Bencode.encPayload p)).1 = some p
+      ∧ Bencode.WFPayload p
 
 /-- Allocation effects of decoding the frame of `m`. -/
 def effsOf : Msg → List Eff
@@ -127,7 +128,8 @@ theorem step_encode (max : Nat) (m : Msg) (h : WFMsg max m) (rest : Bytes) :
     have h5 : ¬ (poolBufLen < d.length) := by simp [poolBufLen]; omega
     simp [get32_be32 _ hi, get32_be32 _ hb, pieceLen, h3, h2, h5, take?_append, effsOf]
   | ext eid p =>
-    obtain ⟨he, hm, hl, hrt⟩ := h
+    obtain ⟨he, hm, hl, hwp⟩ := h
+    have hrt := Bencode.parseExt_encPayload p hwp
     subst he
     have hbl : (body (.ext (Bencode.kindId p) p)).length = 1 + (Bencode.encPayload p).length := by
       simp [body]; omega
